@@ -313,6 +313,9 @@ func normalizeAndValidateEmailConstraint(constraint string) (string, error) {
 	if normalizedConstraint[0] == '@' {
 		normalizedConstraint = normalizedConstraint[1:] // remove the leading @ as wildcard for emails
 	}
+	if normalizedConstraint == "" {
+		return "", fmt.Errorf("email contraint %q can not be empty", constraint)
+	}
 	if normalizedConstraint[0] == '.' {
 		return "", fmt.Errorf("email constraint %q cannot start with period", constraint)
 	}
